@@ -95,14 +95,14 @@ Definition ard16 (o : operand) : av :=
   | _ => AJunk
   end.
 
-Definition axor (x y : av) : av :=
+Definition axor0 (x y : av) : av :=
   match x, y with
   | ALin a, ALin b => ALin (a ++ b)
   | ADbl s, ASignC s' c => if src_eqb s s' && N.eqb c 29 then ALin [(CTwo, s)] else AJunk
   | AShr1 s, AOddC s' c => if src_eqb s s' && N.eqb c 142 then ALin [(CHalf, s)] else AJunk
   | _, _ => AJunk
   end.
-Definition aand (x y : av) : av :=
+Definition aand0 (x y : av) : av :=
   match y with
   | AConst c =>
       match x with
@@ -114,6 +114,9 @@ Definition aand (x y : av) : av :=
       end
   | _ => AJunk
   end.
+(* xor and and are commutative: try both operand orders *)
+Definition axor (x y : av) : av := match axor0 x y with AJunk => axor0 y x | v => v end.
+Definition aand (x y : av) : av := match aand0 x y with AJunk => aand0 y x | v => v end.
 Definition aadd (x y : av) : av :=
   match x, y with
   | ALin a, ALin b => match single a, single b with
